@@ -1,7 +1,7 @@
 (** C01 — vocabulary of the theorems about the property's quantifier "every SMILES re-rooting / fragment reordering /
     reversal" (proof/C01_RewriteProof.v, props/C01.v theorems 36-38).  Definitions only. *)
 From Coq Require Import List NArith ZArith Bool.
-From SK Require Import lib.LGraph model.C01_Model model.C01_String.
+From SK Require Import lib.Tok lib.LGraph model.C01_Model model.C01_String.
 Import ListNotations.
 Local Open Scope Z_scope.
 
@@ -24,3 +24,38 @@ Definition swap_iedge (x : iedge) : iedge := IE (e_H x) (e_G x) (- e_std x).
 Definition swap_inode (a : inode) : inode :=
   IN (a_el (i_H a)) (a_ch (i_H a)) (i_amap a) (Some (a_arom (i_H a), a_hc (i_H a), a_nb (i_H a))) (i_H a) (i_G a).
 
+
+(** ** an executable test of [rewritten] (sound: proof/C01_RewriteCheck.v), run by the correspondence on what RDKit reads
+    from a SMILES and from its re-rooted / fragment-shuffled rewriting: the renumbering is given as the list of images *)
+Fixpoint list_eqb {X} (e : X -> X -> bool) (l1 l2 : list X) : bool :=
+  match l1, l2 with
+  | [], [] => true
+  | x :: r1, y :: r2 => e x y && list_eqb e r1 r2
+  | _, _ => false
+  end.
+Definition ratom_eqb (a b : ratom) : bool :=
+  N.eqb (ra_el a) (ra_el b) && Bool.eqb (ra_arom a) (ra_arom b) && Z.eqb (ra_hs a) (ra_hs b) && Z.eqb (ra_ch a) (ra_ch b) &&
+  N.eqb (ra_map a) (ra_map b) && list_eqb N.eqb (ra_nb a) (ra_nb b).
+Definition s_of (sl : list nat) (i : nat) : nat := nth i sl i.
+Definition bond_eqb (b c : nat * nat * Z) : bool :=
+  Nat.eqb (fst (fst b)) (fst (fst c)) && Nat.eqb (snd (fst b)) (snd (fst c)) && Z.eqb (snd b) (snd c).
+Definition bond_in (b : nat * nat * Z) (bs : list (nat * nat * Z)) : bool := existsb (bond_eqb b) bs.
+Fixpoint nodupb (l : list nat) : bool :=
+  match l with [] => true | x :: r => negb (existsb (Nat.eqb x) r) && nodupb r end.
+
+Definition rewrittenb (sl : list nat) (m m' : rmol) : bool :=
+  let n := length (rm_atoms m) in
+  let s := s_of sl in
+  Nat.eqb (length (rm_atoms m')) n && Nat.eqb (length sl) n && nodupb sl &&
+  forallb (fun i => match nth_error (rm_atoms m) i, nth_error (rm_atoms m') (s i) with
+                    | Some a, Some b => ratom_eqb a b
+                    | _, _ => false
+                    end) (seq 0 n) &&
+  forallb (fun b : nat * nat * Z => let '(i, j, o) := b in bond_in (s i, s j, o) (rm_bonds m') || bond_in (s j, s i, o) (rm_bonds m')) (rm_bonds m) &&
+  forallb (fun b' : nat * nat * Z => let '(i', j', o) := b' in
+             existsb (fun b : nat * nat * Z => let '(i, j, o2) := b in
+                        Z.eqb o o2 && ((Nat.eqb (s i) i' && Nat.eqb (s j) j') || (Nat.eqb (s j) i' && Nat.eqb (s i) j'))) (rm_bonds m))
+          (rm_bonds m') &&
+  forallb (fun b : nat * nat * Z => let '(i, j, _) := b in Nat.ltb i n && Nat.ltb j n) (rm_bonds m).
+
+Definition run_rw_premise (sl : list nat) (m m' : rmol) : tok := L [tbool (rewrittenb sl m m')].
